@@ -159,6 +159,17 @@ PROPS = {
             dict(name="TestConcurrentPairs", quick=300, thorough=3000, shards_thorough=4, race=True, shrinktime="5s"),
         ],
     ),
+    "C17": dict(
+        pkg="c17", level="exploration",
+        technique="model-based property testing (rapid): generated acyclic upcaster graphs, payloads and failure positions vs a reference walk; typed chains vs json.Marshal(f(decoded))",
+        level_text="Random search over upcaster graph shapes (chains, branches, several upcasters per source), stored types/payloads and the position of a failing step; the callback's view of every event is compared with an independent walk along first-registered upcasters.",
+        level_note="Graphs are acyclic by construction (C16 covers acceptance); at most one failing upcaster per case.",
+        assumptions=COMMON_ASSUME,
+        tests=[
+            dict(name="TestRawGraph", quick=4000, thorough=40000, shards_thorough=10),
+            dict(name="TestTypedChain", quick=3000, thorough=30000, shards_thorough=6),
+        ],
+    ),
 }
 
 HOOK_COMMITS = ["99604d0"]
